@@ -78,6 +78,10 @@ func New(id, tier, level string) *Run {
 		distinct: map[string]struct{}{}, Inconcl: map[string]int64{}, Extra: map[string]any{},
 		knownHit: map[string]int{}, viol: map[string]string{}, maxSample: 8, Floor: 2}
 	r.known = loadKnown(id)
+	if vr := os.Getenv("VERIF_REPO"); vr != "" && vr != "/repo" && EvidenceDir == "" {
+		// mutation-sanity runs against a scratch copy must not overwrite the evidence of the real tree
+		EvidenceDir = filepath.Join(Root, ".work", "mutant-evidence")
+	}
 	return r
 }
 
